@@ -14,11 +14,13 @@ CHECKS = {
     "C09": dict(category="other", technique=_BT, text="parameters of every kind reach exactly the rows/objective of their interval", note="assumes model/casadi"),
     "C10": dict(category="other", technique=_BT, text="starting value of every decision variable, read back in physical units, equals the guess oracle (constants, column arrays, time expressions, last call wins, helper states)", note="assumes model/casadi; n-by-N arrays for node quantities: final node takes the last column"),
     "C11": dict(category="other", technique=_BT, text="free/fixed/parametric horizon give the same oracle rows plus T>=0", note="assumes model/casadi"),
+    "C13": dict(category="proof", technique="structural proof obligations over the AST of every public mutator (invalidate-or-reapply, clean-completeness, clean start) + bounded history obligations on the casadi model", text="every public method of Stage/Ocp that writes a specification field invalidates the transcription or re-applies and records the change; clean() resets every accumulating attribute; re-transcription starts clean (all for the current source, no bound). 14 histories x methods: NLP, start, parameter values and solver equal those of the freshly written OCP (bounded)", note="whole-history quantification is reduced to the discipline by the induction argument in DESIGN.md; deepcopy contract assumed"),
     "C14": dict(category="other", technique=_BT, text="rows with symbolic positive scales equal oracle rows divided by scale", note="assumes model/casadi"),
 }
+CHECKS["C20"] = dict(category="other", technique=_BT + "; AST scan of exception handlers", text="34 ill-posed specifications x 3 methods are each rejected by declaration/transcription of the real code; only documented exception handlers exist on the transcription path", note="fault catalogue is finite (positions of the missing derivative enumerated for n<=3); SplineMethod faults not covered; model rejections validated against the real CasADi natively")
 NOT_APPLICABLE = {
     "C18": "save/load is pickle + CasADi's serializer; no contract on rockit code can express it (DESIGN.md section 8)",
     "C19": "both sides of the equation are NLP-solver runs (DESIGN.md section 8)",
 }
-for _p in ("C03", "C12", "C13", "C15", "C16", "C17", "C20"):
+for _p in ("C03", "C12", "C15", "C16", "C17"):
     NOT_APPLICABLE[_p] = "check under construction in this session (will be claimed once it is green on the unchanged tree)"
